@@ -180,12 +180,16 @@ func TestVerifC02(t *testing.T) {
 	// 1. every valid frame, alone, msize on both sides of its length
 	for _, f := range corpus {
 		n := uint32(len(f))
-		for _, ms := range []uint32{n, n - 1, n + 1, 7, 65536, maximumLength, 1<<32 - 1} {
+		mss := []uint32{n, n - 1, n + 1, 7, 65536, maximumLength, 1<<32 - 1}
+		if !thorough {
+			mss = []uint32{n, n - 1, 65536, 1<<32 - 1}
+		}
+		for _, ms := range mss {
 			vh02Run(o, "valid", ms, f, full(), 1)
 		}
 	}
 	// 2. size fields around the limits, body unchanged (stream shorter or longer than the size says)
-	sizeReps := 12
+	sizeReps := 8
 	if thorough {
 		sizeReps = len(corpus)
 	}
@@ -212,7 +216,7 @@ func TestVerifC02(t *testing.T) {
 		}
 	}
 	// 4. mutated frames, alone and inside sequences of good frames (resynchronisation)
-	nmut := 500
+	nmut := 360
 	if thorough {
 		nmut = 8000
 	}
